@@ -188,6 +188,7 @@ var specs = []spec{
 		Rule:        "schedule half: all interleavings with at most b deviations (2 quick / 3 thorough for two requesters, one more for a single requester) of a writer feeding k in {1,2,3,5} frames from three positions (part about to be published, just published, segment about to complete) with 1-2 concurrent requests drawn from {blocking reload for the next part / the part after / the open segment / the next segment / part 0 of it / a part index past the end, preload hint, plain playlist, already published, too far, expired, hint after next}; sequential half: every (msn, part) of a grid relative to the playlist at every node of the Low-Latency write trees, malformed directives, delta updates against the full playlist of the same instant; distinct = distinct (scenario, statuses and completion points)",
 		Assumptions: schedAssumptions},
 	{ID: "C07", Pkg: ".", Level: "model_checking", Instrument: true, RacePass: false, Procs: 1,
+		InstrPkgs:   []string{".", "pkg/storage"}, // the storage back ends have a lock of their own
 		StmtPoints:  []string{"Muxer.Close", "muxerStream.close"},
 		Rule:        "all interleavings with at most b deviations (b=2 with two or three requesters, 3 (thorough 4) with one, unbounded with none) of a writer that feeds k frames and then calls Close with 0..2 (thorough 0..3) requests blocked inside the muxer (multivariant / media playlist before data, blocking reload, preload hint) and with clients that stop taking a response body (hint, part, segment, init, playlist) until the writer has finished, from several points of the muxer's life (before data, mid-segment, mid-part, window slid), RAM and Directory storage, all three variants; followed by a sequential epilogue of one request of every kind; plus sequential scenarios in which the k-th segment / part rotation fails on storage before Close (every k; the muxer mutex must be free, Close must return, later requests must be answered); distinct = distinct (scenario, response statuses and completion points)",
 		Assumptions: schedAssumptions},
